@@ -20,18 +20,36 @@ RULE = ("(1) robustness: seeded mutation fuzzer inside native/h_xmlfuzz.cc (byte
         "over every XML/URDF file <= 24 kB under model/ and test/, generated models of vf/gen/model.py and hand-written URDF "
         "documents; each input goes through mj_parseXMLString+mj_compile (or mj_addBufferVFS+mj_loadXML) and, when it "
         "compiles and is small, mj_makeData+mj_step, under the ASan+UBSan and the release builds with exact-size heap "
-        "buffers and error-buffer sizes 0/1/8/64/300/1000. (2) schema oracle: per element kind of mjcf.schema (parsed by "
-        "doc/generate/mjcf_schema.py) a valid host document = prelude of referents + chain of minimal elements; conforming "
-        "variants (optional attributes at min/max arity, every keyword, optional children) and single-violation mutants of "
-        "15 rule kinds; a reference validator written from the documented schema semantics confirms that each mutant "
-        "breaks exactly the labelled rule. distinct = (mutation family x outcome class) for (1), (element kind x rule "
-        "kind) for (2); non-trivial = input reached the reader behind the tokenizer / host accepted by the parser")
+        "buffers and error-buffer sizes 0/1/8/64/300/1000. (2) schema oracle: the reference language is mjcf.schema (parsed by "
+        "doc/generate/mjcf_schema.py) TOGETHER WITH doc/XMLreference.rst (per attribute :at-val: type/arity/required, "
+        "vf/gen/mjcf_docref.py): a document is conforming only if both sources accept it, a violation is labelled only if both "
+        "reject it (numeric ranges only where XMLreference states them). Per element kind a valid host document = prelude of "
+        "referents + chain of minimal elements; every element kind of the kinematic tree is additionally hosted below "
+        "<frame>/<replicate> chains (directly and inside a nested <body>); conforming variants (optional attributes at min/max "
+        "arity, every keyword, optional children, a nested recursive element with its own at-most-once child before the "
+        "parent's) and single-violation mutants of 15 rule kinds (at-most-once children duplicated before/between/after a "
+        "nested element of the same recursive kind); a reference validator written from the documented semantics confirms that "
+        "each mutant breaks exactly the labelled rule. distinct = (mutation family x outcome class) for (1), (element kind x "
+        "rule kind) for (2); non-trivial = input reached the reader behind the tokenizer / host accepted by the parser")
 ASSUMPTIONS = [
     "the XML tokenizer of this build is a stand-in (native/shim/tinyxml2.cc): encodings, DTD, entities and other byte-level "
     "lexical decisions are outside reach; a sanitizer report whose innermost frame is shim code is reported as a shim bug, not as a violation",
     "resource exhaustion requested by the document itself (allocation-size-too-big / out-of-memory reports, std::bad_alloc, "
     "'could not allocate' errors, per-input wall-clock timeouts) is counted separately and is not a violation: size/memory "
-    "attributes are documented as user-requested allocation sizes (XMLreference, size element)",
+    "attributes are documented as user-requested allocation sizes (XMLreference, size element). 'Requested' is decided on "
+    "numeric tokens of attribute VALUES only (a number >= 1000, a size suffix on a memory attribute, inf/nan literals): an "
+    "out-of-memory on a document of small numbers is reported as runaway-allocation",
+    "where mjcf.schema and XMLreference.rst disagree about an attribute (required flag, value type, array length, keyword set) "
+    "neither source alone decides: conforming documents satisfy both, violations break both; the 45 disagreements are listed "
+    "once in the evidence (schema_file_vs_XMLreference) as a defect of the schema file / generated XSD, outside C37",
+    "XMLreference '(N)' with a schema arity [lo..N] counts as agreement: 'the length of the array is enforced by the parser "
+    "unless specified otherwise in the reference documentation' (XMLreference, Attribute types)",
+    "numeric min=/max=/positive facets of mjcf.schema are labelled as violations only where the attribute's XMLreference "
+    "paragraph states the range ('Must be strictly positive', 'Must be greater than 0'); conforming values respect all facets",
+    "attributes of the meta-elements <frame>/<replicate> themselves are not used for unknown-attribute mutants (XMLreference: "
+    "'include, frame, and replicate which are outside of the schema'; mjcf.schema: the validator admits the full body surface "
+    "for the aliases) and a body-row child of worldbody/frame/replicate is never an unknown element; elements NESTED in them are "
+    "inside the documented schema and are checked in full",
     "mju_error raised by mj_makeData/mj_step of a successfully loaded model is the engine's documented error channel "
     "(programming.rst, 'Error and memory'); only errors escaping from the load calls count",
     "a schema-violating document may be rejected by any stage of loading (parser or compiler); the stage is recorded",
